@@ -8,14 +8,16 @@
 (* termination).  Money is not modelled here (see SectorsP.tla).           *)
 (*                                                                         *)
 (* SM = [sec : n -> [st, d, p, exp, fexp], posted : d -> SUBSET partition, *)
-(*       alloc, off, cron, early : SUBSET n (awaiting termination fee)]    *)
+(*       alloc, off, cron, pre : n -> [exp, at] (pre-commitments)]         *)
 (*   st \in {"unproven","active","faulty","recovering","term"}             *)
 (*   fexp = epoch at which a faulty sector is terminated early (0 = none)  *)
 (* Deadlines are 0..D-1, partitions 0.. ; epochs as in the actor.          *)
 (***************************************************************************)
 EXTENDS Integers, Sequences, FiniteSets, TLC
 
-CONSTANTS D, W, PartSize, FaultMaxAge, FaultCutoff, MinLife, MaxLife, AddrSectorsMax, AddrPartsMax
+CONSTANTS D, W, PartSize, FaultMaxAge, FaultCutoff, MinLife, MaxLife, AddrSectorsMax, AddrPartsMax,
+          MaxPC,       \* epochs a pre-commitment may wait for its proof (max_prove_commit_duration of the seal proof)
+          ChalDelay    \* pre_commit_challenge_delay
 \* one message may address at most AddrPartsMax partitions and AddrSectorsMax sectors; a Window PoSt, which loads whole
 \* partitions, may therefore name at most this many of them
 PostedPartsMax == IF AddrSectorsMax \div PartSize < AddrPartsMax THEN AddrSectorsMax \div PartSize ELSE AddrPartsMax
@@ -82,6 +84,53 @@ CommitNI(sm, c, ns, d, exps, requireAll, e) ==
                sx == [k \in 1..Len(ord) |-> exps[ord[k]]]
                sm1 == PlaceAll(sm, sel, d, sx, 1)
            IN  [ok |-> TRUE, SM |-> [sm1 EXCEPT !.alloc = @ \cup {ns[i] : i \in 1..Len(ns)}, !.cron = TRUE]]
+
+-----------------------------------------------------------------------------
+\* PreCommitSectorBatch2(ns, exps): all or nothing.  A pre-commitment reserves the sector number; the sector will be
+\* activated by a proof no later than MaxPC epochs on, so its lifetime is counted from e + MaxPC.
+PreNos(sm) == DOMAIN sm.pre
+PreCommit(sm, c, ns, exps, e) ==
+  LET act == e + MaxPC
+      bad(i) == exps[i] <= act \/ exps[i] - act < MinLife \/ exps[i] > e + MaxLife
+      dupOrUsed == \E i \in 1..Len(ns) : ns[i] \in sm.alloc \/ \E j \in 1..Len(ns) : i # j /\ ns[i] = ns[j]
+  IN  IF c \notin {"owner", "worker"} \/ Len(ns) = 0 \/ dupOrUsed \/ \E i \in 1..Len(ns) : bad(i) THEN Fail(sm)
+      ELSE [ok |-> TRUE,
+            SM |-> [sm EXCEPT !.pre = [n \in DOMAIN @ \cup {ns[i] : i \in 1..Len(ns)} |->
+                                         IF n \in DOMAIN @ THEN @[n]
+                                         ELSE [exp |-> exps[CHOOSE i \in 1..Len(ns) : ns[i] = n], at |-> e]],
+                             !.alloc = @ \cup {ns[i] : i \in 1..Len(ns)}, !.cron = TRUE]]
+
+\* where a newly proven sector goes (deadline_assignment.rs): among the mutable deadlines the one that is least, in
+\* this lexicographic order: partitions needed after compaction if it took the sector, partitions needed as it is,
+\* "its last partition is full", (among non-full ones) the fuller one, fewer live sectors, lower index
+CeilDiv(a, b) == (a + b - 1) \div b
+DlLiveCnt(sm, d) == Cardinality({n \in Nos(sm) : sm.sec[n].d = d /\ St(sm, n) \in Live})
+DlTotalCnt(sm, d) == Cardinality({n \in Nos(sm) : sm.sec[n].d = d})
+AKey(sm, d) == LET lv == DlLiveCnt(sm, d) tt == DlTotalCnt(sm, d) full == (tt % PartSize = 0) IN
+               <<CeilDiv(lv + 1, PartSize), CeilDiv(tt + 1, PartSize), IF full THEN 1 ELSE 0, IF full THEN 0 ELSE 0 - tt, lv, d>>
+LexLess(a, b) == \E i \in 1..Len(a) : a[i] < b[i] /\ \A j \in 1..(i - 1) : a[j] = b[j]
+BestDl(sm, C) == CHOOSE d \in C : \A x \in C \ {d} : LexLess(AKey(sm, d), AKey(sm, x))
+RECURSIVE AssignAll(_, _, _, _, _)
+AssignAll(sm, ns, exps, C, i) ==
+  IF i > Len(ns) THEN sm
+  ELSE AssignAll(PlaceAll(sm, <<ns[i]>>, BestDl(sm, C), <<exps[i]>>, 1), ns, exps, C, i + 1)
+
+\* ProveCommitSectors3(ns) without pieces: every named number must be pre-committed and past its challenge delay
+\* (else the whole message fails); a pre-commitment whose proof is overdue is skipped (or fails the message when
+\* all must succeed); the proven sectors are assigned, in sector-number order, to the mutable deadlines
+ProveCommit(sm, c, ns, requireAll, e) ==
+  LET N == {ns[i] : i \in 1..Len(ns)}
+      okN == {n \in N \cap PreNos(sm) : e <= sm.pre[n].at + MaxPC}
+      C == {d \in 0..(D - 1) : Mutable(sm, d, e)}
+  IN  IF c \notin {"owner", "worker"} \/ Len(ns) = 0 \/ ~(N \subseteq PreNos(sm)) \/ Cardinality(N) # Len(ns)
+         \/ \E n \in N : e <= sm.pre[n].at + ChalDelay
+         \/ okN = {} \/ (requireAll /\ okN # N) \/ C = {}
+      THEN Fail(sm)
+      ELSE LET ord == SortIdx(ns, {i \in 1..Len(ns) : ns[i] \in okN})
+               sel == [k \in 1..Len(ord) |-> ns[ord[k]]]
+               sx == [k \in 1..Len(ord) |-> sm.pre[ns[ord[k]]].exp]
+               sm1 == AssignAll(sm, sel, sx, C, 1)
+           IN  [ok |-> TRUE, SM |-> [sm1 EXCEPT !.pre = [n \in DOMAIN @ \ okN |-> @[n]]]]
 
 -----------------------------------------------------------------------------
 \* SubmitWindowedPoSt(d, parts) with parts = Seq of [i : partition, skipped : SUBSET n]
@@ -207,7 +256,7 @@ Abs(sm) == [sec |-> [n \in Nos(sm) |-> [st |-> St(sm, n), d |-> sm.sec[n].d, p |
                                          due |-> IF St(sm, n) \in Live THEN DueAt(sm, n) ELSE 0]],
             \* (whether the deadline cron keeps running depends on the miner's money -- it stops once nothing is
             \* pledged, deposited or vesting -- which this model does not have: not compared)
-            posted |-> sm.posted, alloc |-> sm.alloc]
+            posted |-> sm.posted, alloc |-> sm.alloc, pre |-> sm.pre]
 
 -----------------------------------------------------------------------------
 (* design-level invariants checked by TLC on the bounded model (MC_Sectors) *)
@@ -218,5 +267,7 @@ PartitionsBounded == \A n \in Nos(SM) : Cardinality(InPart(SM, SM.sec[n].d, SM.s
 FaultsHaveExpiry == \A n \in Nos(SM) : St(SM, n) \in {"faulty", "recovering"} => SM.sec[n].fexp > 0
 NothingOverdue == \A n \in Nos(SM) : (St(SM, n) \in Live /\ SM.cron) => DueAt(SM, n) + P >= epoch
 TypeOK == /\ \A n \in Nos(SM) : St(SM, n) \in Live \cup {"term"} /\ SM.sec[n].d \in 0..(D - 1)
-          /\ Nos(SM) \subseteq SM.alloc
+          /\ Nos(SM) \subseteq SM.alloc /\ PreNos(SM) \subseteq SM.alloc
+          \* a number is a pre-commitment or a sector, never both
+          /\ PreNos(SM) \cap Nos(SM) = {}
 =============================================================================
